@@ -1332,3 +1332,106 @@ class RequestsOnFilledObject:
 register(Obligation(name="C13.requests_on_filled_object", prop=PROP, engine="B", bounded=True, run=RequestsOnFilledObject(),
                     functions=["eminus.occupations:Occupations.magnetization", "eminus.occupations:Occupations.spin", "eminus.occupations:Occupations.charge", "eminus.occupations:Occupations.fill"],
                     doc="BOUNDED: assignment orders that reach an already filled object: the fillings reproduce the last request (magnetisation / spin / charge)"))
+
+
+# ------------------------------------------------------------------------------------------------
+# bounded: the occupations of an ATOMS object after assignment orders through the Atoms interface
+# ------------------------------------------------------------------------------------------------
+
+
+class AtomsLevelOrders:
+    """BOUNDED: assignment orders through the Atoms interface: the k-point weights replaced by set_k with the SAME number of k-points (then smearing),
+    the valence charges / species re-assigned on a charged object, charge and spin assigned in both orders: the k-weighted fillings (weights of the
+    k-point object) sum to sum(Z) - charge, lie in [0, 2/Nspin] and reproduce the requested spin."""
+
+    def problems(self):
+        import eminus
+        from eminus import Atoms
+
+        eminus.config.backend = "numpy"
+        eminus.config.verbose = "critical"
+        bad = []
+
+        def check(at, desc, smear=False, spin=None):
+            occ = at.occ
+            wk = np.asarray(at.kpts.wk)
+            if smear:
+                rng = np.random.default_rng(3)
+                eps = np.sort(rng.uniform(-1, 1, (at.kpts.Nk, occ.Nspin, occ.Nstate)), axis=-1) + np.linspace(0, 0.4, at.kpts.Nk)[:, None, None]
+                occ.smear(eps)
+            f = np.asarray(occ.f)
+            tot = float(np.sum(wk[:, None, None] * f))
+            want = float(np.sum(np.asarray(at.Z))) - float(at.charge)
+            p = {}
+            if abs(tot - want) > 1e-8:
+                p["k_weighted_sum_of_fillings"] = tot
+                p["sum_Z_minus_charge"] = want
+            if abs(float(occ.Nelec) - want) > 1e-12:
+                p["Nelec"] = float(occ.Nelec)
+            if f.min() < -1e-14 or f.max() > 2 / occ.Nspin + 1e-14:
+                p["range"] = [float(f.min()), float(f.max())]
+            if np.shape(np.asarray(occ.wk)) != wk.shape or np.abs(np.asarray(occ.wk) - wk).max() > 1e-14:
+                p["weights_of_the_occupations"] = np.asarray(occ.wk).tolist()
+                p["weights_of_the_kpoints"] = wk.tolist()
+            if spin is not None and occ.Nspin == 2:
+                got = float(np.sum(wk[:, None] * (f[:, 0] - f[:, 1])))
+                if abs(got - spin) > 1e-10:
+                    p["up_minus_down"] = got
+            if p:
+                bad.append(dict(history=desc, observed=p))
+
+        cell = [[6.0, 0.3, 0.0], [0.0, 6.5, 0.2], [0.1, 0.0, 7.0]]
+        try:
+            at = Atoms(["Si", "Si"], [[0.0, 0.0, 0.0], [2.5, 2.6, 2.4]], ecut=3, a=cell)
+            at.kpts.kmesh = [2, 1, 1]
+            at.occ.smearing = 0.01
+            at.occ.bands = 6
+            at.build()
+            at.set_k(np.asarray(at.kpts.k).copy(), [0.25, 0.75])
+            check(at, "Si2, kmesh (2,1,1), smearing; build(); set_k(same k-points, weights (0.25, 0.75)); smear()", smear=True)
+            at.set_k(np.asarray(at.kpts.k).copy(), [0.6, 0.4])
+            check(at, "...; set_k(weights (0.6, 0.4)); smear()", smear=True)
+            at = Atoms("He", [[0.0, 0.0, 0.0]], ecut=3, a=cell, charge=1, unrestricted=True)
+            at.Z = 2
+            at.build()
+            check(at, "He, charge = 1 (constructor); Z = 2; build()")
+            at = Atoms(["C", "H", "H", "H", "H"], np.random.default_rng(1).uniform(1, 5, (5, 3)), ecut=3, a=cell, charge=-1, unrestricted=True)
+            at.Z = "pade"
+            at.build()
+            check(at, "CH4, charge = -1; Z = 'pade'; build()")
+            at = Atoms(["Li", "H"], [[0.0, 0.0, 0.0], [0.0, 0.0, 3.0]], ecut=3, a=cell, unrestricted=True)
+            at.charge = 1
+            at.atom = ["Na", "H"]
+            at.Z = None
+            at.build()
+            check(at, "LiH; charge = 1; atom = [Na, H]; Z = None; build()")
+            at = Atoms(["Li", "H"], [[0.0, 0.0, 0.0], [0.0, 0.0, 3.0]], ecut=3, a=cell, unrestricted=True)
+            at.charge = 1
+            at.spin = 1
+            at.build()
+            check(at, "LiH; charge = 1; spin = 1; build()", spin=1)
+            at = Atoms(["Li", "H"], [[0.0, 0.0, 0.0], [0.0, 0.0, 3.0]], ecut=3, a=cell, unrestricted=True)
+            at.spin = 2
+            at.charge = 0
+            at.build()
+            check(at, "LiH; spin = 2; charge = 0; build()", spin=2)
+        except Exception as e:  # noqa: BLE001
+            bad.append(dict(raised=f"{type(e).__name__}: {e}"))
+        return bad
+
+    def __call__(self, ob, tier, seed):
+        from pycv.framework import BOUNDED_OK
+
+        bad = self.problems()
+        if bad:
+            return Result(REFUTED, backend="native", witness=bad[0], replayed=True, replay_info=dict(failing=bad[:5]), detail=f"occupations of an Atoms object: {bad[0]}")
+        return Result(BOUNDED_OK, backend="native", detail="bounded: seven assignment orders through the Atoms interface (set_k with new weights + smearing, Z / species re-assigned on charged objects, charge / spin orders)")
+
+    def replay(self, wit):
+        bad = self.problems()
+        return bool(bad), dict(failing=bad[:5])
+
+
+register(Obligation(name="C13.atoms_interface.assignment_orders", prop=PROP, engine="B", bounded=True, run=AtomsLevelOrders(),
+                    functions=["eminus.atoms:Atoms.set_k", "eminus.atoms:Atoms.Z", "eminus.atoms:Atoms.charge", "eminus.atoms:Atoms.spin", "eminus.occupations:Occupations.smear"],
+                    doc="BOUNDED: electron number, weights and spin of the occupations after assignment orders through the Atoms interface"))
